@@ -26,6 +26,9 @@ pub struct KnownFinding {
     pub signature: Vec<String>,
     #[serde(default)]
     pub replay: Option<String>,
+    /// all committed replay files of this finding (relative to the verification root)
+    #[serde(default)]
+    pub replays: Vec<String>,
     pub what: String,
 }
 
@@ -149,7 +152,7 @@ pub fn run(a: &RunArgs) -> i32 {
                 if failing {
                     let msg = if code.is_none() { format!("process died with {:?} replaying {}", o.status, f.display()) } else { text.clone() };
                     let rel = f.strip_prefix(verif_root()).map(|p| p.to_string_lossy().to_string()).unwrap_or_default();
-                    if let Some(k) = known.iter().find(|k| k.status == "open" && k.replay.as_deref() == Some(rel.as_str())) {
+                    if let Some(k) = known.iter().find(|k| k.status == "open" && (k.replay.as_deref() == Some(rel.as_str()) || k.replays.iter().any(|r| r == &rel))) {
                         known_lines.insert(format!("KNOWN-FINDING: property={} {} [{}]", a.prop, k.what, k.tag));
                     } else if let Some(k) = matches_known(&known, &a.prop, &msg) {
                         known_lines.insert(format!("KNOWN-FINDING: property={} {} [{}]", a.prop, k.what, k.tag));
